@@ -25,6 +25,18 @@ const ARENA: usize = 40;
 /// "detects" an already wiped key by looking for a zero byte must not be fooled).
 fn nonzero_key(seed: u64) -> [u8; 32] { let mut k = gen::key32(seed, "c20"); for b in k.iter_mut() { if *b == 0 { *b = 0x5a; } } if seed % 3 == 0 { k[(seed >> 8) as usize % 32] = 0; if seed % 2 == 0 { k[(seed >> 16) as usize % 32] = 0; } } k }
 
+/// Blocks released while a constructor ran must not hold the secret the constructor stored (positional agreement in
+/// 24 or more of 32 bytes counts as holding it: clamping or re-encoding a key changes at most a few bits).
+fn released_copy(secret: &[u8], blocks: &[Vec<u8>]) -> Option<usize> {
+    if secret.len() < 32 { return None; }
+    for b in blocks { if b.len() < 32 { continue; } for off in 0..=b.len() - 32 { let same = (0..32).filter(|&i| b[off + i] == secret[i]).count(); if same >= 24 { return Some(same); } } }
+    None
+}
+macro_rules! journaled { ($e:expr) => {{ alloc::journal_start(); let v = $e; let (blocks, _) = alloc::journal_stop(); (v, blocks) }}; }
+fn constructor_clean(secret: &[u8], blocks: &[Vec<u8>], what: &str) -> Result<(), String> {
+    match released_copy(secret, blocks) { Some(n) => Err(format!("{}: a heap block released while the value was being built holds the key's secret bytes unerased ({} of 32 bytes agree)", what, n)), None => Ok(()) }
+}
+
 /// Drop the value at `p` in place and check that the storage it owned at that moment holds zeros where the key was.
 unsafe fn drop_checked<T>(p: *mut T, key_ptr: *const u8, what: &str, origin: &str) -> Result<&'static str, String> {
     let (base, size) = (p as usize, std::mem::size_of::<T>());
@@ -83,12 +95,12 @@ pub fn check(prog: &Program) -> CheckResult {
         let live: Vec<usize> = held.iter().enumerate().filter(|(_, h)| h.is_some()).map(|(i, _)| i).collect();
         let sel = |x: u16| -> Option<usize> { if live.is_empty() { None } else { Some(live[crate::core::pick(x, live.len())]) } };
         match op {
-            Op::NewPrivate(s) => if np < ARENA { priv_arena[np].write(PrivateKey::try_from(&nonzero_key(*s)[..]).unwrap()); held.push(Some((Held::PrivInline(np), "from bytes"))); np += 1; },
-            Op::Generate => if np < ARENA { priv_arena[np].write(PrivateKey::generate()); held.push(Some((Held::PrivInline(np), "generated"))); np += 1; },
-            Op::NewPayload(s) => if ny < ARENA { unsafe { std::ptr::write(pay_slot(pay_arena, ny), PayloadKey::new(&nonzero_key(*s))); } held.push(Some((Held::PayInline(ny), "from bytes"))); ny += 1; },
+            Op::NewPrivate(s) => if np < ARENA { let kb = nonzero_key(*s); let (v, bl) = journaled!(PrivateKey::try_from(&kb[..]).unwrap()); if let Err(m) = constructor_clean(&kb, &bl, "PrivateKey::try_from(bytes)") { result = Err(m); } priv_arena[np].write(v); held.push(Some((Held::PrivInline(np), "from bytes"))); np += 1; },
+            Op::Generate => if np < ARENA { let (v, bl) = journaled!(PrivateKey::generate()); if let Err(m) = constructor_clean(v.as_bytes(), &bl, "PrivateKey::generate") { result = Err(m); } priv_arena[np].write(v); held.push(Some((Held::PrivInline(np), "generated"))); np += 1; },
+            Op::NewPayload(s) => if ny < ARENA { let kb = nonzero_key(*s); let (v, bl) = journaled!(PayloadKey::new(&kb)); if let Err(m) = constructor_clean(&kb, &bl, "PayloadKey::new") { result = Err(m); } unsafe { std::ptr::write(pay_slot(pay_arena, ny), v); } held.push(Some((Held::PayInline(ny), "from bytes"))); ny += 1; },
             Op::Clone(x) => if let Some(i) = sel(*x) { unsafe { match &held[i].as_ref().unwrap().0 {
-                Held::PrivInline(j) => if np < ARENA { let c = (*priv_arena[*j].as_ptr()).clone(); priv_arena[np].write(c); held.push(Some((Held::PrivInline(np), "clone"))); np += 1; },
-                Held::PrivBoxed(b) => if np < ARENA { let c = (*b.as_ptr()).clone(); priv_arena[np].write(c); held.push(Some((Held::PrivInline(np), "clone"))); np += 1; },
+                Held::PrivInline(j) => if np < ARENA { let (c, bl) = journaled!((*priv_arena[*j].as_ptr()).clone()); if let Err(m) = constructor_clean(c.as_bytes(), &bl, "PrivateKey::clone") { result = Err(m); } priv_arena[np].write(c); held.push(Some((Held::PrivInline(np), "clone"))); np += 1; },
+                Held::PrivBoxed(b) => if np < ARENA { let (c, bl) = journaled!((*b.as_ptr()).clone()); if let Err(m) = constructor_clean(c.as_bytes(), &bl, "PrivateKey::clone") { result = Err(m); } priv_arena[np].write(c); held.push(Some((Held::PrivInline(np), "clone"))); np += 1; },
                 Held::PayInline(j) => if ny < ARENA { let c = (*pay_slot(pay_arena, *j)).clone(); std::ptr::write(pay_slot(pay_arena, ny), c); held.push(Some((Held::PayInline(ny), "clone"))); ny += 1; },
                 Held::PayBoxed(b) => if ny < ARENA { let c = (*b.as_ptr()).clone(); std::ptr::write(pay_slot(pay_arena, ny), c); held.push(Some((Held::PayInline(ny), "clone"))); ny += 1; },
                 Held::PayTagged(b) => if ny < ARENA { let c = (*b.key.as_ptr()).clone(); std::ptr::write(pay_slot(pay_arena, ny), c); held.push(Some((Held::PayInline(ny), "clone"))); ny += 1; },
@@ -142,7 +154,7 @@ pub fn strat() -> impl Strategy<Value = Program> {
 }
 
 pub fn run(ctx: &Ctx) {
-    set_rule("C20", "programs of 1..30 operations over a table of key containers - PrivateKey from bytes, PrivateKey::generate, PayloadKey::new, clone of any live value, `clone_from` between live values, drop of any live value, drop while the owning frame unwinds from a panic, move into a Box (payload keys also into a box behind 5 bytes of other data, and inline at every address residue modulo 8) - closed by dropping the rest in a generated order. At every drop the storage owned at that moment is inspected: a separate heap block through the allocator (inside dealloc, before the block is returned), bytes stored inline by reading the slot back after drop_in_place; both for both types, so the verdict does not depend on where a type keeps its bytes. Non-trivial = a clone is dropped before or after its original; distinct by hash of the program");
+    set_rule("C20", "programs of 1..30 operations over a table of key containers (every constructor and clone also journals the heap blocks released while it runs: none may hold the stored secret) - PrivateKey from bytes, PrivateKey::generate, PayloadKey::new, clone of any live value, `clone_from` between live values, drop of any live value, drop while the owning frame unwinds from a panic, move into a Box (payload keys also into a box behind 5 bytes of other data, and inline at every address residue modulo 8) - closed by dropping the rest in a generated order. At every drop the storage owned at that moment is inspected: a separate heap block through the allocator (inside dealloc, before the block is returned), bytes stored inline by reading the slot back after drop_in_place; both for both types, so the verdict does not depend on where a type keeps its bytes. Non-trivial = a clone is dropped before or after its original; distinct by hash of the program");
     ctx.assume("only storage owned by the value at drop time is inspected; copies the compiler leaves behind when a value is moved are outside what a destructor controls");
     ctx.pbt("clone_drop_programs", ctx.n(600_000, 6_000_000), strat, check);
     // fixed minimal programs: each constructor, dropped directly and via a clone
